@@ -179,6 +179,8 @@ func (it *Interp) Apply(op *Op) {
 		it.opBulk(op)
 	case "obsBad":
 		it.opObsBad(op)
+	case "bulkObs":
+		it.opBulkObs(op)
 	case "addBatch", "removeBatch", "exchangeBatch":
 		it.opExchangeBatch(op)
 	case "setRelBatch":
@@ -1730,8 +1732,14 @@ func (it *Interp) opShrink(op *Op) {
 		if it.Opt.ShrinkCaps {
 			it.checkShrinkCaps(b)
 		}
+		mem := b.W.Stats().Memory
 		if b.W.Shrink() {
 			fail("shrink|converged|more-work", "%s step %d: Shrink reports remaining work right after a complete Shrink", b.Name, it.Step)
+		}
+		// "no remaining work" means that there is nothing an unbounded Shrink could still release (free tables, which
+		// the per-table figures do not list, included)
+		if after := b.W.Stats().Memory; after != mem {
+			fail("shrink|converged|memory", "%s step %d: after Shrink reported no remaining work (mode %d), an unbounded Shrink still changed the reserved memory from %d to %d bytes", b.Name, it.Step, op.Mode, mem, after)
 		}
 		if it.Opt.ShrinkCaps {
 			it.checkShrinkCaps(b)
@@ -1852,6 +1860,20 @@ func (it *Interp) opReset(op *Op) {
 		}
 	}
 	it.checkResources() // (also through the typed handles the backends have kept)
+	// the world is fresh again: loading a dump is possible now - but not while the world is locked
+	for _, b := range it.B {
+		if b.saved == nil || len(b.saved.dump.Alive) == 0 {
+			continue
+		}
+		q := b.all.Query()
+		p := try(func() { b.U.LoadEntities(&b.saved.dump) })
+		n := q.Count()
+		q.Close()
+		if p == nil || n != 0 || b.W.IsLocked() {
+			fail("lock|reset|load-on-locked-world", "%s step %d: LoadEntities on a locked, freshly reset world: panic=%v, the open query counts %d entities afterwards", b.Name, it.Step, p != nil, n)
+		}
+		it.count("load-attempt-on-locked-fresh-world")
+	}
 }
 
 func (it *Interp) opGC(op *Op) {
@@ -2248,8 +2270,14 @@ func (it *Interp) opRegister(op *Op) {
 		it.M.Extra++
 	}
 	for _, b := range it.B {
-		if n := len(ecs.ComponentIDs(b.W)); n != b.numTypes(it.M) {
+		ids := ecs.ComponentIDs(b.W)
+		if n := len(ids); n != b.numTypes(it.M) {
 			fail("registry|register|count", "%s step %d: %d component IDs registered, expected %d", b.Name, it.Step, n, b.numTypes(it.M))
+		}
+		for i, id := range ids {
+			if int(id.Index()) != i {
+				fail("registry|register|order", "%s step %d: ComponentIDs()[%d] = %d (rejected registration: %v)", b.Name, it.Step, i, id.Index(), !valid)
+			}
 		}
 		b.checkRegistry(it.Step)
 	}
